@@ -251,6 +251,7 @@ func runC11(c *Ctx) {
 	ruleOptsPointerFresh(c)
 	ruleXtextDecodesEveryPlus(c)
 	rulePathBytesPassThrough(c)
+	ruleParserCursor(c)
 
 	R.Rule("R-enum-whitelist", "E3 edge-feasibility", "BODY, RET, NOTIFY elements and the ORCPT address type are accepted only when equal to a declared constant", 6)
 	if f := c.A.Func("(*Conn).handleMail"); f != nil {
